@@ -339,3 +339,168 @@ def tokens(node, out):
     else:
         raise AssertionError(k)
     return out
+
+
+# ---------------------------------------------------------------------------------------------------
+# instrumented rendering (what CPython executes): every statement records its id, every choice comes from a script
+
+PRELUDE = '''
+class E0(Exception): pass
+class E1(Exception): pass
+class E2(Exception): pass
+_EXC = [E0, E1, E2, ValueError]
+class _Rt:
+    def __init__(self): self.script = []; self.pos = 0; self.seen = set(); self.steps = 0
+    def pick(self, n):
+        self.steps += 1
+        if self.steps > 400: raise SystemExit
+        if self.pos < len(self.script):
+            v = self.script[self.pos] % n; self.pos += 1; return v
+        return 0
+_rt = _Rt()
+def _maybe_raise():
+    k = _rt.pick(12)
+    if k >= 8: raise _EXC[k - 8]()
+def _m(i): _rt.seen.add(i)
+def _s(i): _rt.seen.add(i); _maybe_raise(); return None
+def _c(i): _rt.seen.add(i); _maybe_raise(); return _rt.pick(2) == 1
+def _x(i): _rt.seen.add(i); return _EXC[_rt.pick(4)]()
+def _it(i):
+    _rt.seen.add(i); _maybe_raise()
+    n = _rt.pick(3)
+    def gen():
+        for k in range(n):
+            yield k
+            _rt.seen.add(i); _maybe_raise()
+    return gen()
+class _cm:
+    def __init__(self, i): _rt.seen.add(i); _maybe_raise()
+    def __enter__(self): return self
+    def __exit__(self, t, v, tb):
+        k = _rt.pick(6)
+        if k == 5: raise _EXC[_rt.pick(4)]()
+        return k == 4 and t is not None
+def _v(i): _rt.seen.add(i); _maybe_raise(); return _rt.pick(4)
+def _d(i):
+    def deco(f): _rt.seen.add(i); _maybe_raise(); return f
+    return deco
+'''
+
+
+class Instr:
+    def __init__(self):
+        self.lines = []
+
+    def emit(self, indent, text):
+        self.lines.append("    " * indent + text)
+
+    def body(self, stmts, indent):
+        if not stmts:
+            self.emit(indent, "pass")
+        for s in stmts:
+            self.stmt(s, indent)
+
+    def stmt(self, n, indent):
+        k, i = n[0], n[1]
+        if k in ("s", "comp"):
+            self.emit(indent, "_s(%d)" % i)
+        elif k == "ret":
+            self.emit(indent, "return _s(%d)" % i)
+        elif k == "brk":
+            self.emit(indent, "_m(%d); break" % i)
+        elif k == "cont":
+            self.emit(indent, "_m(%d); continue" % i)
+        elif k == "raise":
+            self.emit(indent, "raise _x(%d)" % i)
+        elif k == "if":
+            self.render_if(n, indent, "if")
+        elif k in ("for", "while"):
+            self.emit(indent, "for _k%d in _it(%d):" % (i, i) if k == "for" else "while _c(%d):" % i)
+            self.body(n[2], indent + 1)
+            if n[3] is not None:
+                self.emit(indent, "else:")
+                self.body(n[3], indent + 1)
+        elif k == "try":
+            self.emit(indent, "try:")
+            self.body(n[2], indent + 1)
+            for hi, (hid, hb) in enumerate(n[3]):
+                self.emit(indent, "except E%d:" % hi)
+                self.emit(indent + 1, "_m(%d)" % hid)
+                self.body(hb, indent + 1)
+            if n[4] is not None:
+                self.emit(indent, "else:")
+                self.body(n[4], indent + 1)
+            if n[5] is not None:
+                self.emit(indent, "finally:")
+                self.body(n[5], indent + 1)
+        elif k == "with":
+            self.emit(indent, "with _cm(%d):" % i)
+            self.body(n[2], indent + 1)
+        elif k == "match":
+            self.emit(indent, "match _v(%d):" % i)
+            for ci, (cid, cb) in enumerate(n[2]):
+                self.emit(indent + 1, "case %d:" % ci)
+                self.emit(indent + 2, "_m(%d)" % cid)
+                self.body(cb, indent + 2)
+        elif k == "def":
+            self.emit(indent, "@_d(%d)" % i)
+            self.emit(indent, "def %s(*a):" % n[2])
+            self.body(n[3], indent + 1)
+        elif k == "class":
+            self.emit(indent, "@_d(%d)" % i)
+            self.emit(indent, "class %s:" % n[2])
+            self.body(n[3], indent + 1)
+        else:
+            raise AssertionError(k)
+
+    def render_if(self, n, indent, kw):
+        self.emit(indent, "%s _c(%d):" % (kw, n[1]))
+        self.body(n[2], indent + 1)
+        o = n[3]
+        if o is not None:
+            if o[0] == "elif":
+                self.render_if(o[1], indent, "elif")
+            else:
+                self.emit(indent, "else:")
+                self.body(o[1], indent + 1)
+
+
+def render_instrumented(fdef):
+    """source of ONE top-level function definition, without its own @_d decorator"""
+    r = Instr()
+    r.emit(0, "def %s(*a):" % fdef[2])
+    r.body(fdef[3], 1)
+    return "\n".join(r.lines) + "\n"
+
+
+RUNNER = PRELUDE + '''
+import json, random, sys
+def _run_all(cases):
+    out = []
+    for c in cases:
+        ns = dict(globals())
+        try:
+            exec(compile(c["src"], "<case>", "exec"), ns)
+        except SyntaxError as e:
+            out.append({"syntax_error": str(e)}); continue
+        rng = random.Random(c["seed"])
+        seen_all = set(); runs = []
+        for r in range(c["nscripts"]):
+            _rt.script = [rng.randrange(0, 24) for _ in range(rng.choice([4, 10, 30, 80]))]
+            if r == 0: _rt.script = []
+            _rt.pos = 0; _rt.seen = set(); _rt.steps = 0
+            try:
+                ns[c["entry"]](0)
+            except SystemExit:
+                pass
+            except BaseException:
+                pass
+            seen_all |= _rt.seen
+            if c.get("keep_runs") and len(runs) < 50:
+                runs.append({"script": list(_rt.script), "seen": sorted(_rt.seen)})
+        out.append({"seen": sorted(seen_all), "runs": runs})
+    return out
+if __name__ == "__main__":
+    cases = json.load(sys.stdin)
+    json.dump(_run_all(cases), sys.stdout)
+'''
